@@ -690,7 +690,7 @@ def check_records(what, o, ch, ref, refs, latest, model, add, here, counters):
             wt = wref.tasks.get(lr['task']) or next((x for x in wref.tasks.values() if x['slug'] == lr['slug'] and x['key'] == lr['key']), None)
             exp_log = [{'lab_uid': lr['uid'], 'n': 1}, 0, {},
                        {'lab_uid': lr['uid'], 'mean': ['np', 'float64', 0.25], 'count': ['np', 'int64', 7], 'where': ['path', 'out/x'], 'shape': ['tuple', [2, 3]],
-                        'hist': ['map', [[3, 1], [12, 2]]], 'best': ['float', 'inf'], 'note': 'to be continued\x85 \u2028é'},
+                        'hist': ['map', [[3, 1], [12, 2]]], 'best': ['float', 'inf'], 'note': 'to be continued\x85', 'title': 'é \u2028x'},
                        {'lab_uid': lr['uid'], 'done': 1}, {'lab_uid': lr['uid'], 'done': 2, 'more': 5}, {'lab_uid': lr['uid'], 'n': 2}]
             if info.get('log') != exp_log:
                 add('C18', 'run_info_log', f'{here}: run info of {n} holds records {info.get("log")}, the latest run of this location added {exp_log}')
